@@ -23,6 +23,10 @@ func (certificateRequest *CertificateRequest) Marshal() ([]byte, error) {
 }
 
 func (certificateRequest *CertificateRequest) Unmarshal(b []byte) error {
+	if len(b) == 0 {
+		return errors.Errorf("CertificateRequest: No sufficient bytes to decode next certificate request")
+	}
+
 	if len(b) > 0 {
 		// bounds checking
 		if len(b) <= 1 {
